@@ -18,13 +18,16 @@ import (
 // Decided on SSA with helpers inlined: no call of a strings / regexp / path
 // matching function receives a value derived from (*types.Package).Path() in the
 // cone of findIntrinsic and findSummary.
-func c11runtime(c *core.Ctx, r *core.Report) {
+func c11runtime(c *core.Ctx, r *core.Report) { c11runtimeAs(c, r, "R11.noeffect.pkg") }
+
+func c11runtimeAs(c *core.Ctx, r *core.Report, rule string) {
+	r.Explain(rule + ": the package-wide no-effect filter of findIntrinsic / findSummary compares the package path for equality; no strings/regexp/path matching function receives a value derived from (*types.Package).Path() (functions of runtime/pprof, runtime/trace ... keep their bodies, call edges to their callbacks exist).")
 	n := 0
 	var bad []string
 	for _, name := range []string{"analysis.findIntrinsic", "analysis.findSummary"} {
 		fn := c.Func("internal/pointer", name)
 		if fn == nil {
-			r.Fail("infra.anchor-unresolved", "R11.noeffect.pkg|internal/pointer."+name, "", "not found")
+			r.Fail("infra.anchor-unresolved", rule+"|internal/pointer."+name, "", "not found")
 			continue
 		}
 		r.Analysed("internal/pointer." + name)
@@ -62,7 +65,7 @@ func c11runtime(c *core.Ctx, r *core.Report) {
 			}
 		}
 	}
-	r.Check(len(bad) == 0 && n >= 1, "R11.noeffect.pkg", "internal/pointer.analysis.findIntrinsic|package-test-exact", "",
+	r.Check(len(bad) == 0 && n >= 1, rule, "internal/pointer.analysis.findIntrinsic|package-test-exact", "",
 		"the package-wide no-effect filter compares the package path for equality",
 		fmt.Sprintf("the package-wide no-effect filter matches the package path with a prefix / substring / pattern function (%v; %d exact comparisons found): functions of other packages sharing the prefix (runtime/pprof.Do, runtime/trace.WithRegion, ...) generate no constraints, their arguments never reach parameters, their callbacks get no call edge", bad, n))
 }
